@@ -43,6 +43,14 @@ CLAIMED["C10"] = dict(
     note=TRUST + " Floats: only the type mapping is checked; float_to_string's %d is a known finding. Go's arithmetic semantics is a model of the Go spec.",
 )
 
+CLAIMED["C13"] = dict(
+    technique="Coq proof that discovery order and topological order are invariant under every permutation of every import set (the HashSet iteration order), on a model compared with the real discover_packages/topo_sort_packages inside coqc; fresh-process byte-for-byte comparison as the failing-input search",
+    text="discovery_order_independent and topo_order_independent are proved for all package file systems and all permutations of all import lists (no axioms); the model (work-queue discipline, sort points, error classes) is compared with the real functions on exhaustive 4-package import relations (cycles included) and random layouts with missing/misdeclared packages. "
+         "Independently every check compiles generated, corpus and probe projects in several fresh processes and from a re-created directory tree and compares all stage dumps byte for byte.",
+    design_ref="DESIGN.md §4 C13",
+    note=TRUST + " Other hash-map iteration sites on the compile path are covered only by the multi-process comparison.",
+)
+
 NOT_YET = {}
 
 def main():
